@@ -6,8 +6,9 @@
     theorems (C02/C12 for [P_glif], C13/C14 for [P_info], C15 for groups, the plist / XML layer
     hypotheses for the plist parts) — for ALL fonts, write options and conforming-writer
     choices.  [toy_ok] shows the laws are satisfiable. *)
-Require Import Norad.Model.Base Norad.Model.FontRT Norad.Model.FontToy
-               Norad.Proofs.FontRTP Norad.Proofs.FontToyP.
+Require Import Norad.Model.GlifSpec Norad.Model.GlifEncode Norad.Proofs.GlifEncodeP Norad.Proofs.GlifRoundtripP.
+Require Import Norad.Model.Base Norad.Model.FontRT Norad.Model.FontToy Norad.Model.FontReal
+               Norad.Proofs.FontRTP Norad.Proofs.FontToyP Norad.Proofs.FontRealP.
 Open Scope N_scope.
 
 (** The file, directory and key names norad uses are the names of the specification. *)
@@ -80,3 +81,32 @@ Example C05_default_layer_last_is_loaded_first :
                load toy_sig t = Ok f' /\
                map l_name (f_layers toy_sig f') = [s "foreground"; s "bg"].
 Proof. eexists. eexists. vm_compute. repeat split; reflexivity. Qed.
+
+(** ---------- with the REAL part models (glif codec, font info, groups / kerning maps and validator) plugged in (Model/FontReal.v) ----------
+    Remaining hypotheses: [codecs_ok K] (the laws of every part other than the glif codec — see
+    Props/C01.v, C01_roundtrip_real, for which theorem discharges which), [L1_glif] (the library
+    hypotheses of C02), and in [font_valid] the glyph domain [wf_glyph] (lib-free glyphs). *)
+Theorem C05_norad_writes_spec_real : forall pf ff ff3 fi fh (K : codecs),
+  L1_glif pf ff ff3 fh -> codecs_ok K ->
+  forall o (f : font (real_sig pf ff ff3 fi fh K)),
+  font_valid (real_sig pf ff ff3 fi fh K) f ->
+  exists t, save (real_sig pf ff ff3 fi fh K) o f = Ok t /\
+            spec_write (real_sig pf ff ff3 fi fh K) norad_choices o f = Some t.
+Proof.
+  intros pf ff ff3 fi fh K L HB o f Hv.
+  destruct (roundtrip_real pf ff ff3 fi fh K L HB o f Hv) as (t & H1 & H2 & _). eauto.
+Qed.
+Theorem C05_norad_reads_spec_real : forall pf ff ff3 fi fh (K : codecs),
+  L1_glif pf ff ff3 fh -> codecs_ok K ->
+  forall c o (f : font (real_sig pf ff ff3 fi fh K)),
+  font_valid (real_sig pf ff ff3 fi fh K) f ->
+  exists t, spec_write (real_sig pf ff ff3 fi fh K) c o f = Some t /\
+            exists f', load (real_sig pf ff ff3 fi fh K) t = Ok f' /\ font_equiv (real_sig pf ff ff3 fi fh K) f f'.
+Proof. exact reads_spec_real. Qed.
+Theorem C05_spec_read_spec_write_real : forall pf ff ff3 fi fh (K : codecs),
+  L1_glif pf ff ff3 fh -> codecs_ok K ->
+  forall c o (f : font (real_sig pf ff ff3 fi fh K)),
+  font_valid (real_sig pf ff ff3 fi fh K) f ->
+  exists t, spec_write (real_sig pf ff ff3 fi fh K) c o f = Some t /\
+            exists f', spec_read (real_sig pf ff ff3 fi fh K) t = Some f' /\ font_equiv (real_sig pf ff ff3 fi fh K) f f'.
+Proof. exact spec_reader_real. Qed.
